@@ -15,6 +15,13 @@ def matches_ident(text: str) -> bool:
 
 
 @verification
+def matches_word(text: str) -> bool:
+    """Check that :paramref:`text` is a lowercase word."""
+    pattern = "^[a-z]+$"
+    return match(pattern, text) is not None
+
+
+@verification
 def is_short(text: str) -> bool:
     """Check that :paramref:`text` is short."""
     return len(text) < 10
@@ -107,6 +114,10 @@ class Item(DBC):
 @invariant(
     lambda self: not (self.keyword is not None) or self.keyword in Keywords,
     "Keyword must be known.",
+)
+@invariant(
+    lambda self: not (self.keyword is not None) or matches_word(self.keyword),
+    "Keyword must be a word.",
 )
 @invariant(
     lambda self: is_short(self.title) and len(self.items) >= 1,
